@@ -455,6 +455,15 @@ def _dominated(e, parents, subj, fn):
         k = p.get('k')
         if k == 'If':
             c = p['ch']
+            c0 = peel(c[0])
+            if len(c) > 1 and c[1] is child and c0.get('k') == 'LetExpr' and lid is not None:
+                # `if let Some(v) = o.filter(IsNone::not_none) { v.unwrap() .. }`
+                from kernels import _filtered
+                pt = c0['pat']
+                if pt.get('k') == 'TupleStruct' and len(pt.get('ch', [])) == 1 and \
+                        pt['ch'][0].get('k') == 'Binding' and pt['ch'][0]['local'] == lid and \
+                        _filtered(c0['ch'][0]) is not None:
+                    return True, 'bound by `if let Some(_) = _.filter(not_none)`'
             preds = dtree.conj(c[0], {})
             if len(c) > 1 and c[1] is child and 'VALID(%s)' % subj in preds:
                 return True, 'dominated by `%s`' % src(c[0])[:60]
